@@ -301,13 +301,13 @@ class Ribosome:
         sequence = self._process_loops(sequence, context)
 
         # Process includes
-        sequence = self._process_includes(sequence, context)
+        sequence = self._process_includes(sequence, context, warnings)
 
         # Process variable substitutions
         sequence = self._process_variables(sequence, context, warnings)
 
         return Protein(
-            sequence=sequence,
+            sequence=self._unshield(sequence),
             source_mrna=mrna.name,
             variables_bound=context,
             warnings=warnings
@@ -358,9 +358,9 @@ class Ribosome:
             if var_name in context:
                 value = context[var_name]
                 if filter_name in self.filters:
-                    return self.filters[filter_name](value)
+                    return self._shield(self.filters[filter_name](value))
                 warnings.append(f"Unknown filter: {filter_name}")
-                return str(value)
+                return self._shield(str(value))
             return match.group(0)
 
         result = re.sub(r'\{\{(\w+)\|(\w+)\}\}', replace_filtered, result)
@@ -383,14 +383,14 @@ class Ribosome:
             value_or_default = match.group(2)
             if value_or_default not in self.filters:
                 if var_name in context:
-                    result = result.replace(match.group(0), str(context[var_name]))
+                    result = result.replace(match.group(0), self._shield(str(context[var_name])))
                 else:
-                    result = result.replace(match.group(0), value_or_default)
+                    result = result.replace(match.group(0), self._shield(value_or_default))
 
         # Optional variables: {{?name}}
         def replace_optional(match: re.Match) -> str:
             var_name = match.group(1)
-            return str(context.get(var_name, ""))
+            return self._shield(str(context.get(var_name, "")))
 
         result = re.sub(r'\{\{\?(\w+)\}\}', replace_optional, result)
 
@@ -398,7 +398,7 @@ class Ribosome:
         def replace_simple(match: re.Match) -> str:
             var_name = match.group(1)
             if var_name in context:
-                return str(context[var_name])
+                return self._shield(str(context[var_name]))
             warnings.append(f"Unbound variable: {var_name}")
             return match.group(0)
 
@@ -498,7 +498,7 @@ class Ribosome:
                 # Process the content with loop context
                 part = content
                 for key, value in loop_context.items():
-                    part = part.replace(f"{{{{{key}}}}}", str(value))
+                    part = part.replace(f"{{{{{key}}}}}", self._shield(str(value)))
 
                 output_parts.append(part)
 
@@ -526,7 +526,24 @@ class Ribosome:
             r'\{\{#each\s+(\w+)\}\}(.*?)\{\{/each\}\}', strip, sequence, flags=re.DOTALL
         )
 
-    def _process_includes(self, sequence: str, context: dict[str, Any]) -> str:
+    # Text that enters the output as data (bound values, loop items, defaults, rendered
+    # includes) has its braces replaced by private-use stand-ins until rendering is
+    # finished, so that the remaining passes cannot read it as template syntax.
+    _SHIELD = str.maketrans({"{": "\ue000", "}": "\ue001"})
+    _UNSHIELD = str.maketrans({"\ue000": "{", "\ue001": "}"})
+
+    def _shield(self, text: str) -> str:
+        return text.translate(self._SHIELD)
+
+    def _unshield(self, text: str) -> str:
+        return text.translate(self._UNSHIELD)
+
+    def _process_includes(
+        self,
+        sequence: str,
+        context: dict[str, Any],
+        warnings: list[str] | None = None
+    ) -> str:
         """
         Process include directives in the template sequence.
 
@@ -556,7 +573,9 @@ class Ribosome:
             template_name = match.group(1)
             if template_name in self.templates:
                 protein = self.translate(template_name, **context)
-                return protein.sequence
+                if warnings is not None:
+                    warnings.extend(protein.warnings)
+                return self._shield(protein.sequence)
             return f"[Unknown template: {template_name}]"
 
         result = re.sub(pattern, replace_include, result)
